@@ -55,6 +55,47 @@ fn m_table_lookup(m: i32) -> HashMap<&'static str, f64> {
     m_table[&m].clone()
 }
 
+/// Verification hook: the row the lookup selects for m as
+/// (pitch, external_dMaj, internal_dMaj, nut_width, chamfer_size).
+#[cfg(scad_tree_verif)]
+pub fn verif_m_table_lookup(m: i32) -> (f64, f64, f64, f64, f64) {
+    let t = m_table_lookup(m);
+    (
+        t["pitch"],
+        t["external_dMaj"],
+        t["internal_dMaj"],
+        t["nut_width"],
+        t["chamfer_size"],
+    )
+}
+
+/// Verification hook: threaded_cylinder for arbitrary dimensions.
+#[cfg(scad_tree_verif)]
+#[allow(clippy::too_many_arguments)]
+pub fn verif_threaded_cylinder(
+    d_min: f64,
+    d_maj: f64,
+    pitch: f64,
+    length: f64,
+    segments: u64,
+    lead_in_degrees: f64,
+    lead_out_degrees: f64,
+    left_hand_thread: bool,
+    center: bool,
+) -> Scad {
+    threaded_cylinder(
+        d_min,
+        d_maj,
+        pitch,
+        length,
+        segments,
+        lead_in_degrees,
+        lead_out_degrees,
+        left_hand_thread,
+        center,
+    )
+}
+
 /// Calculates the thread height from the given pitch.
 ///
 /// pitch: The pitch of the threads.
